@@ -4,6 +4,16 @@ SHAPE_NOTE = ("Container shapes in the typing context are fixed and small while 
               "(floats as reals); pyvc itself is trusted (cross-checked against CPython on solver-generated inputs each run).")
 
 META = {
+    "C03": {
+        "text": "Level 'other': the bookkeeping functions are proved (partition into written/unassigned, one record per "
+                "written atom in order, map/list agreement of Residue.remove_atom/rename_atom, the driver serialises exactly "
+                "the written list); the whole-pipeline clauses are decided for the shipped topology only - 240 pipeline "
+                "runs compare every residue's final atom set with its patched template (no missing hydrogen, duplicate or "
+                "LP/FLIP placeholder; written + unassigned = model; input heavy atoms present) - plus the bounded "
+                "record-sequence enumeration of the constructor.",
+        "note": "repair_heavy's deletion warnings, the Flip/Alcoholic/Water complete()/finalize() methods and cleanup() are "
+                "not under contract; their effect is only observed through the X table. " + SHAPE_NOTE,
+    },
     "C11": {
         "text": "Level 'other': a syntactic effect system, not SMT. Obligations = all sites in the 30 package modules that "
                 "could make output depend on anything but inputs and options (hash-ordered iteration, ambient reads, "
